@@ -97,10 +97,13 @@ pub struct Shared {
     bops: usize,
     bops_left: Vec<usize>,
     budget_tx: Option<mpsc::Sender<()>>,
+    /// `yld=<k>`: self-wake-and-Pending rounds of every user future
+    yld: usize,
+    yld_left: Vec<usize>,
 }
 
 impl Shared {
-    fn new(n: usize, imm_list: &[(usize, bool)], sig_fn: Option<usize>, bops: usize) -> Shared {
+    fn new(n: usize, imm_list: &[(usize, bool)], sig_fn: Option<usize>, bops: usize, yld: usize) -> Shared {
         let mut imm = vec![None; n];
         for &(i, ok) in imm_list {
             if i < n {
@@ -118,6 +121,8 @@ impl Shared {
             bops,
             bops_left: vec![bops; n],
             budget_tx: None,
+            yld,
+            yld_left: vec![yld; n],
         }
     }
 
@@ -129,6 +134,8 @@ impl Shared {
             self.sig.resize(id + 1, false);
             let bops = self.bops;
             self.bops_left.resize(id + 1, bops);
+            let yld = self.yld;
+            self.yld_left.resize(id + 1, yld);
         }
     }
 }
@@ -192,6 +199,12 @@ impl<O: UserOut> Future for ControlledFut<O> {
     fn poll(self: Pin<&mut Self>, cx: &mut Context<'_>) -> Poll<O> {
         let id = self.id;
         let mut s = self.sh.borrow_mut();
+        if s.yld_left[id] > 0 {
+            // a cooperatively yielding function: wakes itself and returns Pending
+            s.yld_left[id] -= 1;
+            cx.waker().wake_by_ref();
+            return Poll::Pending;
+        }
         let done = match (s.completed[id], s.imm[id]) {
             (Some(ok), _) => Some((ok, false)),
             (None, Some(ok)) => Some((ok, true)),
@@ -641,7 +654,7 @@ impl<'g> CallRun<'g> {
             GRef::Shared(g) => g.graph.node_count(),
             GRef::Mut(g) => g.graph.node_count(),
         };
-        let sh = Rc::new(RefCell::new(Shared::new(n, &cfg.imm, cfg.sig, cfg.bops)));
+        let sh = Rc::new(RefCell::new(Shared::new(n, &cfg.imm, cfg.sig, cfg.bops, cfg.yld)));
         let (flag, waker) = flag_waker(true);
         let (tx, rx) = mpsc::channel::<InterruptSignal>(16);
         let (rx_lib, rx_unused) = if cfg.with && cfg.strat != Strat::Non {
@@ -678,7 +691,7 @@ impl<'g> CallRun<'g> {
             GRef::Shared(g) => g.graph.node_count(),
             GRef::Mut(g) => g.graph.node_count(),
         };
-        let sh = Rc::new(RefCell::new(Shared::new(n, &cfg.imm, cfg.sig, cfg.bops)));
+        let sh = Rc::new(RefCell::new(Shared::new(n, &cfg.imm, cfg.sig, cfg.bops, cfg.yld)));
         let (flag, waker) = flag_waker(true);
         sh.borrow_mut().sig_tx = Some(tx.clone());
         let fut = make_call(g, cfg, &sh, IntSrc::State(state));
@@ -730,7 +743,11 @@ impl<'g> CallRun<'g> {
         let Some(fut) = self.fut.as_mut() else {
             return;
         };
-        let waker = self.waker.clone();
+        // every poll carries a NEW waker (the call may be polled by another task, or through a
+        // combinator that wraps the waker): a wake-up of the waker of an earlier poll is lost
+        let (flag, waker) = flag_waker(false);
+        self.flag = flag;
+        self.waker = waker.clone();
         let res = catch_unwind(AssertUnwindSafe(|| {
             let mut cx = Context::from_waker(&waker);
             fut.as_mut().poll(&mut cx)
@@ -1011,6 +1028,11 @@ impl<'g> StreamRun<'g> {
     }
 
     fn flag_tok(&self) -> String {
+        // whether a wake-up is outstanding only means something while the consumer is parked, i.e.
+        // after a poll that returned `Pending` (the wakers of earlier polls are gone)
+        if !self.last_pending {
+            return "W-".to_string();
+        }
         format!("W{}", self.flag.load(Ordering::SeqCst) as u8)
     }
 
@@ -1045,10 +1067,14 @@ impl<'g> StreamRun<'g> {
     pub fn apply(&mut self, ev: &SEv) -> String {
         let body = match *ev {
             SEv::Next => match self.stream.as_mut() {
-                None => format!("P {}", self.flag_tok()),
+                None => "P W-".to_string(),
                 Some(stream) => {
-                    self.flag.swap(false, Ordering::SeqCst);
-                    let waker = self.waker.clone();
+                    // every poll carries a NEW waker (the polling task may change between polls, a
+                    // combinator may wrap the waker): only a wake-up of the waker of the latest poll
+                    // counts, a wake-up of an earlier one is lost with its flag
+                    let (flag, waker) = flag_waker(false);
+                    self.flag = flag;
+                    self.waker = waker.clone();
                     let res = catch_unwind(AssertUnwindSafe(|| {
                         let mut cx = Context::from_waker(&waker);
                         stream.as_mut().poll_next(&mut cx)
